@@ -31,7 +31,8 @@ const (
 	nB      = 8            // 4 single + 4 multi
 	nC      = 4
 	nD      = 12
-	nShards = nA + nB + nC + nD
+	nE      = 1
+	nShards = nA + nB + nC + nD + nE
 )
 
 func init() {
@@ -43,6 +44,7 @@ func init() {
 		Replay: replay,
 		Rule: "leg A: states = abstract states of each machine (BFS, 256 bytes each); transitions = (state, chunk) pairs, chunk = every string of length 2..L over one representative per byte class, fed at once vs byte-wise, concrete snapshots compared; " +
 			"leg B: every (state, byte) input of the oj.Parser product search through all front-ends whole and byte-wise; leg C: token texts x contexts x every 2-split / 4096 straddle; leg D: every SEN text of <= L class representatives x every chunking into <=3 pieces; " +
+			"leg E: every exported parse / tokenize / validate entry point (package functions, Must* and *String forms, methods of fresh and Reuse parsers) x every kind of optional argument x every way a reader ends, against (&Parser{}).Parse of the same package, and the packages against each other; " +
 			"distinct_nontrivial = (state, chunk) pairs where the machine is still alive after the chunk + inputs accepted by at least one front-end",
 		Assumptions: []string{"byte classes are recomputed from the current tables; bytes compared literally in the code are kept as separate classes",
 			"snapshot masks scratch fields (stale tmp, runeBytes, mi) that fast paths legitimately leave different", "error text and position are not compared here (C09)"},
@@ -67,6 +69,11 @@ type caseT struct {
 	Other   string     `json:"other,omitempty"`
 	Whole   bool       `json:"whole,omitempty"`
 	Extra   [][][]byte `json:"-"`
+	// the reader's answers (io.EOF with the last chunk, one empty read) or the
+	// content of the input slice's spare capacity ("-" = none at all)
+	EOFWithLast bool   `json:"eof_with_last,omitempty"`
+	ZeroAt      int    `json:"zero_read_before_chunk,omitempty"`
+	Spare       string `json:"spare_capacity,omitempty"`
 }
 
 // outcome is the canonical text of what a run delivered.
@@ -104,8 +111,10 @@ func run(c *core.Ctx) {
 		legB(c, c.Shard-nA)
 	case c.Shard < nA+nB+nC:
 		legC(c, c.Shard-nA-nB)
-	default:
+	case c.Shard < nA+nB+nC+nD:
 		legD(c, c.Shard-nA-nB-nC)
+	default:
+		legE(c)
 	}
 }
 
@@ -295,6 +304,7 @@ type runner struct {
 	whole bool
 	cfg   mach.Config
 	sen   bool
+	env   string // "" or the reader answer that differs from the default (cfg carries it)
 }
 
 func runners(multi bool) []runner {
@@ -308,7 +318,11 @@ func runners(multi bool) []runner {
 			if cf.Chan && (m.Name == "oj.Validator" || m.Name == "oj.Tokenizer" || m.Name == "sen.Tokenizer") {
 				continue
 			}
-			rs = append(rs, runner{m, true, cf, !m.Strict}, runner{m, false, cf, !m.Strict})
+			rs = append(rs, runner{m, true, cf, !m.Strict, ""}, runner{m, false, cf, !m.Strict, ""})
+			// the reader's other lawful answers (compared with the default reader run)
+			ce, cz := cf, cf
+			ce.EOFWithLast, cz.ZeroAt = true, -1
+			rs = append(rs, runner{m, false, ce, !m.Strict, "+eof-with-last-chunk"}, runner{m, false, cz, !m.Strict, "+empty-read-before-eof"})
 		}
 	}
 	return rs
@@ -324,14 +338,18 @@ func (r runner) name() string {
 	if r.cfg.Chan {
 		n += ".chan"
 	}
-	return n
+	return n + r.env
 }
 
 func (r runner) exec(in []byte) *mach.Out {
 	if r.whole {
 		return r.m.Whole(in, r.cfg)
 	}
-	return r.m.Feed(mach.Bytewise(in), r.cfg, false, false)
+	cf := r.cfg
+	if cf.ZeroAt < 0 {
+		cf.ZeroAt = len(in) + 1
+	}
+	return r.m.Feed(mach.Bytewise(in), cf, false, false)
 }
 
 // treeDiffKind classifies how two canonical outcomes differ.
@@ -368,18 +386,39 @@ func compareAll(c *core.Ctx, rs []runner, in []byte, multi bool, leg, mode strin
 	var base string
 	var baseName string
 	accepted := false
+	outs := make([]string, len(rs))
 	for i, r := range rs {
-		if r.sen && !valid {
-			continue // SEN accepts more than JSON: only strict JSON input is compared
+		skipCross := r.sen && !valid // SEN accepts more than JSON: only strict JSON input is compared across front-ends
+		if skipCross && r.whole {
+			continue
 		}
 		o := r.exec(in)
 		c.Eval()
 		out := outcome(r.m, r.cfg, o)
+		outs[i] = out
 		if out != "ERR" {
 			accepted = true
 		}
 		if i == 0 {
 			base, baseName = out, r.name()
+			continue
+		}
+		if r.env != "" {
+			// rs[i-1] or rs[i-2] is the default reader run of the same machine and mode
+			j := i - 1
+			if rs[j].env != "" {
+				j--
+			}
+			if want := outs[j]; out != want {
+				cs := caseT{Leg: leg + "-env", Machine: r.m.Name, Multi: multi, Chan: r.cfg.Chan, Input: in, Quoted: fmt.Sprintf("%q", in), A: mach.Bytewise(in), EOFWithLast: r.cfg.EOFWithLast}
+				if r.cfg.ZeroAt < 0 {
+					cs.ZeroAt = len(in) + 1
+				}
+				c.Fail(core.Sig("agree", "a="+rs[j].name(), "b="+r.name(), fmt.Sprintf("multi=%v", multi), "mode="+mode, treeDiffKind(want, out)), cs, len(in), want, out)
+			}
+			continue
+		}
+		if skipCross {
 			continue
 		}
 		cmpBase := base
@@ -447,7 +486,7 @@ func tokenTexts() []string {
 	return out
 }
 
-var contexts = []string{"%s", " %s ", "[%s]", "[%s,1]", "[1,%s]", "{\"k\":%s}", "{\"k\":%s,\"j\":0}", "[%s\n]", "[\n%s\n,\n%s]"}
+var contexts = []string{"%s", " %s ", "[%s]", "[%s,1]", "[1,%s]", "{\"k\":%s}", "{\"k\":%s,\"j\":0}", "[%s\n]", "[\n%s\n,\n%s]", "{\"\":%s,\"j\":0}", "{\"a\":{\"\":%s},\"j\":[%s]}"}
 
 func legC(c *core.Ctx, sub int) {
 	machines := []*mach.M{mach.OjParser(), mach.OjTokenizer(), mach.GenParser(), mach.OjValidator(), mach.SenParser(), mach.SenTokenizer()}
@@ -484,12 +523,40 @@ func legC(c *core.Ctx, sub int) {
 						c.Fail(core.Sig("agree", "a=oj.Parser.whole", "b="+m.Name+".whole", "token="+tokenClass(tok), treeDiffKind(cmp, whole)), cs, len(in), cmp, whole)
 					}
 				}
+				checkEnv := func(class string, chunks [][]byte, cf mach.Config, want string) string {
+					o := m.Feed(chunks, cf, false, false)
+					c.Eval()
+					got := outcome(m, mach.Config{}, o)
+					if got != want {
+						cs := caseT{Leg: "C", Machine: m.Name, A: chunks, Input: in, Quoted: fmt.Sprintf("%q", in), EOFWithLast: cf.EOFWithLast, ZeroAt: cf.ZeroAt}
+						c.Fail(core.Sig("chunking", "fe="+m.Name, "token="+tokenClass(tok), "split="+class, treeDiffKind(want, got)), cs, len(in)+len(chunks), want, got)
+					}
+					return got
+				}
+				// every chunking is run under the reader's default answers and, up to two
+				// chunks, under its other lawful ones: io.EOF together with the last
+				// chunk, one read of no bytes before any chunk or before io.EOF
+				// (a variant is compared with the default run of the same chunking)
 				check := func(class string, chunks [][]byte) {
-					o := m.Feed(chunks, mach.Config{}, false, false)
+					base := checkEnv(class, chunks, mach.Config{}, whole)
+					if len(chunks) > 2 && class != "bytewise" {
+						return
+					}
+					checkEnv(class+"+eof-with-last-chunk", chunks, mach.Config{EOFWithLast: true}, base)
+					for z := 1; z <= len(chunks)+1; z++ {
+						if len(chunks) > 2 && z != len(chunks)+1 {
+							continue
+						}
+						checkEnv(class+"+empty-read", chunks, mach.Config{ZeroAt: z}, base)
+					}
+				}
+				// the []byte entry point must not look behind the slice it is given
+				for si, spare := range [][]byte{mach.SpareFor([]byte("e]}")), nil} {
+					o := m.WholeSpare(in, spare, mach.Config{})
 					c.Eval()
 					if got := outcome(m, mach.Config{}, o); got != whole {
-						cs := caseT{Leg: "C", Machine: m.Name, A: chunks, Input: in, Quoted: fmt.Sprintf("%q", in)}
-						c.Fail(core.Sig("chunking", "fe="+m.Name, "token="+tokenClass(tok), "split="+class, treeDiffKind(whole, got)), cs, len(in)+len(chunks), whole, got)
+						cs := caseT{Leg: "C", Machine: m.Name, Whole: true, Input: in, Quoted: fmt.Sprintf("%q", in), Spare: []string{string(spare), "-"}[si]}
+						c.Fail(core.Sig("spare-capacity", "fe="+m.Name, "token="+tokenClass(tok), []string{"continuation-stored-behind-the-input", "no-spare-capacity"}[si], treeDiffKind(whole, got)), cs, len(in), whole, got)
 					}
 				}
 				check("one-chunk", [][]byte{in})
@@ -530,12 +597,27 @@ func legC(c *core.Ctx, sub int) {
 			if whole != "ERR" {
 				c.Nontrivial()
 			}
-			check := func(class string, chunks [][]byte) {
-				o := m.Feed(chunks, mach.Config{}, false, false)
+			checkEnv := func(class string, chunks [][]byte, cf mach.Config, want string) string {
+				o := m.Feed(chunks, cf, false, false)
 				c.Eval()
-				if got := outcome(m, mach.Config{}, o); got != whole {
-					cs := caseT{Leg: "C", Machine: m.Name, A: chunks, Input: in, Quoted: fmt.Sprintf("%q", in)}
-					c.Fail(core.Sig("chunking", "fe="+m.Name, "token=sen:"+st.class, "split="+class, treeDiffKind(whole, got)), cs, len(in)+len(chunks), whole, got)
+				got := outcome(m, mach.Config{}, o)
+				if got != want {
+					cs := caseT{Leg: "C", Machine: m.Name, A: chunks, Input: in, Quoted: fmt.Sprintf("%q", in), EOFWithLast: cf.EOFWithLast, ZeroAt: cf.ZeroAt}
+					c.Fail(core.Sig("chunking", "fe="+m.Name, "token=sen:"+st.class, "split="+class, treeDiffKind(want, got)), cs, len(in)+len(chunks), want, got)
+				}
+				return got
+			}
+			check := func(class string, chunks [][]byte) {
+				base := checkEnv(class, chunks, mach.Config{}, whole)
+				if len(chunks) > 2 && class != "bytewise" {
+					return
+				}
+				checkEnv(class+"+eof-with-last-chunk", chunks, mach.Config{EOFWithLast: true}, base)
+				for z := 1; z <= len(chunks)+1; z++ {
+					if len(chunks) > 2 && z != len(chunks)+1 {
+						continue
+					}
+					checkEnv(class+"+empty-read", chunks, mach.Config{ZeroAt: z}, base)
 				}
 			}
 			check("one-chunk", [][]byte{in})
@@ -771,6 +853,15 @@ func replay(c *core.Ctx, raw json.RawMessage) {
 		c.HarnessError("bad case: %v", err)
 		return
 	}
+	if cs.Leg == "E" {
+		var ec entryCase
+		if err := json.Unmarshal(raw, &ec); err != nil {
+			c.HarnessError("bad case: %v", err)
+			return
+		}
+		replayE(c, ec)
+		return
+	}
 	m := mach.ByName(cs.Machine)
 	if m == nil {
 		c.HarnessError("unknown machine %q", cs.Machine)
@@ -824,9 +915,24 @@ func replay(c *core.Ctx, raw json.RawMessage) {
 		if x != y {
 			c.Fail("replay", cs, 1, x, y)
 		}
+	case cs.Spare != "":
+		ow := m.Whole(cs.Input, cfg)
+		spare := []byte(cs.Spare)
+		if cs.Spare == "-" {
+			spare = nil
+		}
+		o := m.WholeSpare(cs.Input, spare, cfg)
+		if x, y := outcome(m, cfg, ow), outcome(m, cfg, o); x != y {
+			c.Fail("replay", cs, 1, x, y)
+		}
 	default:
 		ow := m.Whole(cs.Input, cfg)
-		o := m.Feed(cs.A, cfg, false, false)
+		fc := cfg
+		fc.EOFWithLast, fc.ZeroAt = cs.EOFWithLast, cs.ZeroAt
+		o := m.Feed(cs.A, fc, false, false)
+		if cs.EOFWithLast || cs.ZeroAt > 0 {
+			ow = m.Feed(cs.A, cfg, false, false)
+		}
 		if x, y := outcome(m, cfg, ow), outcome(m, cfg, o); x != y {
 			c.Fail("replay", cs, 1, x, y)
 		}
